@@ -427,6 +427,9 @@ func runC13Histories(c *Ctx, depth int) {
 			}
 			return strings.Join(p, " ; ")
 		}
+		if len(h) == 3 {
+			c.Sample(map[string]any{"history": desc(len(h) - 1), "sources": "S0..S6 = c13Sources, T0..T2 = c13Texts"})
+		}
 		for oi, op := range h {
 			c.Count("history_ops", 1)
 			c.Eval(1)
